@@ -149,4 +149,44 @@ def sampleVar (l : List Rat) : Rat :=
   let ss := (l.map (fun v => v * v)).sum
   n * ((ss - (s / n) * s) / n) / (n - 1)
 
+/-! ### what the driver runs end to end (definitions added so that the theorems speak about them) -/
+
+/-- the record `count_splits_on_tree` takes of one input tree `t` with rooting flag `r` and weight `w`: the tree is
+    encoded with default flags; the edge of a bipartition is looked up through `bipartition_edge_map` (bipartitions hash
+    by split mask: two edges carrying the same split both resolve to the later one) -/
+def treeRecOf (r : Option Bool) (w : Option Rat) (t : T) : TreeRec :=
+  let es := C04.edgeRecs r t
+  let t2 := C01.encodeTree r true true t
+  let em := C04.edgeMap es
+  { rooted := r == some true, weight := w, splits := es.map (·.split),
+    lens := es.map (fun e => ((C04.lookup em e.split).bind (·.len)).getD 0), leafset := t2.mask }
+
+/-- ids of the nodes of the (encoded) target whose split has frequency below the threshold -/
+def weakIdsOf (sd : SD) (mf : Rat) (r : Option Bool) (t2 : T) : List Nat :=
+  (t2.nodes.filter (fun nd => decide (freq sd (C01.splitOf (r == some true) t2.mask nd.mask) < mf))).map T.id
+
+/-- `collapse_edges_with_less_than_minimum_support`: encode the target, flag, refuse (`none`) when a leaf edge is flagged,
+    else collapse every flagged internal edge -/
+def collapseBelow (sd : SD) (mf : Rat) (r : Option Bool) (t : T) : Option T :=
+  let t2 := C01.encodeTree r true true t
+  let weak := fun i => (weakIdsOf sd mf r t2).contains i
+  if anyWeakLeaf weak t2 then none else some (collapseWeak weak t2)
+
+/-- the summary of one split's value list: count, mean, median, minimum, maximum, sample variance (none below two values) -/
+structure Stats where
+  n : Nat
+  mean : Rat
+  median : Rat
+  lo : Rat
+  hi : Rat
+  var : Option Rat
+
+def stats (l : List Rat) : Stats :=
+  let s := sortAsc l
+  { n := l.length, mean := mean l, median := median l, lo := s.headD 0, hi := s.getLastD 0,
+    var := if l.length ≥ 2 then some (sampleVar l) else none }
+
+/-- support written on a node of a target tree whose split is `s`: the frequency, or a percentage -/
+def supportOf (sd : SD) (asPercent : Bool) (s : Int) : Rat := if asPercent then freq sd s * 100 else freq sd s
+
 end DendroModel.C05
